@@ -36,9 +36,52 @@ from armi.nucDirectory import nuclideBases
 from armi.nuclearDataIO import xsLibraries, xsNuclides
 from armi.nuclearDataIO.cccc import cccc, compxs, dif3d, dlayxs, fixsrc, gamiso, isotxs, labels, nhflux, pmatrx, rzflux
 
+from symx import shims
+
 STUBS = ["file on disk -> io.BytesIO / io.StringIO handed to the real Stream object (open() is not called)",
          "header integers are symbolic and are concretised by forking where they reach struct.pack / range(); array "
-         "contents are concrete, pairwise different numbers"]
+         "contents are concrete, pairwise different numbers",
+         "isotxs.sparse / compxs._CompxsScatterMatrix -> the same scipy constructors behind a check of the (data, "
+         "indices, indptr) triple: scipy does not validate it and a column/row index outside the matrix corrupts the "
+         "heap of the worker process (C boundary); the check turns it into a ValueError of the reader"]
+
+
+def _checked_triple(arg, shape, minor):
+    """raise ValueError unless (data, indices, indptr) describes a matrix of this shape"""
+    if isinstance(arg, tuple) and len(arg) == 3 and shape is not None:
+        data, indices, indptr = (np.asarray(x) for x in arg)
+        n = shape[minor]
+        if len(indices) and (indices.min() < 0 or indices.max() >= n):
+            raise ValueError("sparse matrix index outside the matrix: indices %s for %d groups" % (indices.tolist(), n))
+        if len(indptr) != shape[1 - minor] + 1 or len(data) != len(indices) or (len(indptr) and indptr[-1] != len(data)) \
+                or np.any(np.diff(indptr) < 0):
+            raise ValueError("sparse matrix index pointers %s do not fit %d values and shape %s"
+                             % (indptr.tolist(), len(data), shape))
+
+
+class _CheckedSparse:
+    """scipy.sparse with a csr_matrix constructor that validates its input"""
+
+    def __getattr__(self, name):
+        return getattr(sparse, name)
+
+    @staticmethod
+    def csr_matrix(arg, shape=None, **kw):
+        _checked_triple(arg, shape, 1)
+        return sparse.csr_matrix(arg, shape=shape, **kw)
+
+
+_RealCompxsScatterMatrix = compxs._CompxsScatterMatrix
+
+
+class _CheckedCompxsScatterMatrix(_RealCompxsScatterMatrix):
+    def makeSparse(self, *args, **kw):
+        _checked_triple((self.data, self.indices, self.indptr), self.shape, 0)
+        return _RealCompxsScatterMatrix.makeSparse(self, *args, **kw)
+
+
+shims.patch(isotxs, sparse=_CheckedSparse())
+shims.patch(compxs, _CompxsScatterMatrix=_CheckedCompxsScatterMatrix)
 
 # ---------------------------------------------------------------------------------------------------------------------
 # Candidate genuine defects found by the harnesses below.  While a flag is True the failing inputs are kept out of the
@@ -202,6 +245,16 @@ def rzflux_roundtrip_for_every_header(ctx, binary):
     c = Cycle(ctx, _rzflux_write, _rzflux_read, d, binary)
     if not c.framing_obligations(ctx):
         return
+    if binary:
+        # CCCC-IV: one flux record per block, ((ZGF(K,J),K=1,NGROUP),J=JL,JU), the blocks together hold every zone once
+        recs = records_of(c.raw)
+        ctx.check("the file holds one flux record per block, together NZONE*NGROUP values",
+                  recs is not None and len(recs) == 2 + nb and sum(len(r) for r in recs[2:]) == 4 * nz * ng)
+        if recs is not None and len(recs) == 2 + nb:
+            ju = min(nz, (nz - 1) // nb + 1)           # JU of block M=1: MIN0(NZONE, (NZONE-1)/NBLOK+1)
+            expect = [float(want[k, j]) for j in range(ju) for k in range(ng)]
+            ctx.check("the first flux record lists the first block of zones, the group index running fastest",
+                      len(recs[2]) == 4 * len(expect) and list(struct.unpack("%df" % len(expect), recs[2])) == expect)
     ok = same_array(want, c.back.groupFluxes)
     if ctx.canary and nz == 3 and nb == 2 and ng == 2:
         ok = False
@@ -271,23 +324,27 @@ def _labels_read(raw, binary):
     return d, _run_container(labels.LabelsStream, d, _mode(False, binary), raw).tell()
 
 
-@harness("C09", bounds="LABELS: zones 1..2, regions 1..2, areas 0..1 (with 2 region/area assignments each), half "
-                       "heights 0..2 in each direction, nuclide sets 0..2, zone aliases 0..1: all combinations; the "
+@harness("C09", bounds="LABELS: zones 1..2, regions 1..2, areas 0..1, region/area assignments 0..2 (thorough: "
+                       "areas 0..2, assignments 0..3), half heights 0..2 in direction 1 and 0..1 in direction 2 (thorough "
+                       "0..2), nuclide sets 0..2, zone "
+                       "aliases 0..1 (thorough 0..2): all combinations; the "
                        "records are filled exactly as the file-structure table of the module says (transverse "
                        "distances iff NHTS1>0 or NHTS2>0, nuclide set labels iff NSETS>1, aliases iff NALIAS>0); "
                        "control-rod and burnup records are not implemented by armi (counts 0)",
-         stubs=STUBS, max_paths=3000,
-         instances={"quick": [dict(binary=True), dict(binary=False)]})
-def labels_roundtrip_for_every_header(ctx, binary):
-    nzone, nreg, narea = int(ctx.int("NTZSZ", 1, 2)), int(ctx.int("NREG", 1, 2)), int(ctx.int("NAREA", 0, 1))
-    nh1, nh2 = int(ctx.int("NHTS1", 0, 2)), int(ctx.int("NHTS2", 0, 2))
-    nsets, nalias = int(ctx.int("NSETS", 0, 2)), int(ctx.int("NALIAS", 0, 1))
+         stubs=STUBS, max_paths=20000,
+         instances={"quick": [dict(binary=True, wide=0), dict(binary=False, wide=0)],
+                    "thorough": [dict(binary=True, wide=1), dict(binary=False, wide=1)]})
+def labels_roundtrip_for_every_header(ctx, binary, wide):
+    nzone, nreg = int(ctx.int("NTZSZ", 1, 2)), int(ctx.int("NREG", 1, 2))
+    narea, nras = int(ctx.int("NAREA", 0, 1 + wide)), int(ctx.int("NRAS", 0, 2 + wide))
+    nh1, nh2 = int(ctx.int("NHTS1", 0, 2)), int(ctx.int("NHTS2", 0, 1 + wide))
+    nsets, nalias = int(ctx.int("NSETS", 0, 2)), int(ctx.int("NALIAS", 0, 1 + wide))
     d = labels.LabelsData()
     md = d.metadata
     md["hname"], md["huse"], md["huse2"], md["version"] = "LABELS", "verif", "u2", 1
     for i, k in enumerate(labels.FILE_SPEC_1D_KEYS):
         md[k] = 0
-    md["numZones"], md["numRegions"], md["numAreas"], md["numRegionAreaAssignments"] = nzone, nreg, narea, 2 * narea
+    md["numZones"], md["numRegions"], md["numAreas"], md["numRegionAreaAssignments"] = nzone, nreg, narea, nras
     md["numHalfHeightsDirection1"], md["numHalfHeightsDirection2"] = nh1, nh2
     md["numNuclideSets"], md["numZoneAliases"] = nsets, nalias
     md["numTrianglesPerHex"], md["numHexagonalRings"], md["modelDimensions"] = 6, 9, 3
@@ -297,7 +354,7 @@ def labels_roundtrip_for_every_header(ctx, binary):
     d.zoneLabels = [next(names) for _ in range(nzone)]
     d.regionLabels = [next(names) for _ in range(nreg)]
     d.areaLabels = [next(names) for _ in range(narea)]
-    d.regionAreaAssignments = [next(names) for _ in range(2 * narea)]
+    d.regionAreaAssignments = [next(names) for _ in range(nras)]
     if nh1 > 0 or nh2 > 0:
         d.halfHeightsDirection1, d.extrapolationDistance1 = list(grid((nh1,), 1.5)), list(grid((nh1,), 11.5))
         d.halfHeightsDirection2, d.extrapolationDistance2 = list(grid((nh2,), 21.5)), list(grid((nh2,), 31.5))
@@ -311,9 +368,16 @@ def labels_roundtrip_for_every_header(ctx, binary):
     c = Cycle(ctx, _labels_write, _labels_read, d, binary)
     if not c.framing_obligations(ctx):
         return
+    if binary:
+        # file identification, specifications, label record; then each optional record iff its count announces it; the
+        # label record holds NTZSZ + NREG + NAREA + NRAS labels of 8 characters
+        recs = records_of(c.raw)
+        nrec = 3 + (1 if (nh1 > 0 or nh2 > 0) else 0) + (1 if nsets > 1 else 0) + (1 if nalias > 0 else 0)
+        ctx.check("the file holds exactly the records its header announces, the label record as long as the counts "
+                  "say", recs is not None and len(recs) == nrec and len(recs[2]) == 8 * (nzone + nreg + narea + nras))
     for n in strs:
         ok = same_strings(want[n], getattr(c.back, n))
-        if ctx.canary and n == "aliasZoneLabels" and nsets == 2 and nh1 == 1 and nh2 == 2:
+        if ctx.canary and n == "aliasZoneLabels" and nsets == 2 and nh1 == 2 and nh2 == 1:
             ok = False
         ctx.check("labels announced by the header read back: %s" % n, ok)
     for n in nums:
@@ -366,6 +430,13 @@ def dif3d_roundtrip_for_every_header(ctx, binary):
     c = Cycle(ctx, _dif3d_write, _dif3d_read, d, binary)
     if not c.framing_obligations(ctx):
         return
+    if binary:
+        # file identification, title, integer and real control records; the overrelaxation record (NUMORP doubles) iff
+        # NUMORP > 0, the rebalance record (NCMRZS doubles and NCMRZS integers) iff NCMRZS > 0
+        recs = records_of(c.raw)
+        tail = ([8 * numorp] if numorp > 0 else []) + ([12 * ncmrzs] if ncmrzs > 0 else [])
+        ctx.check("the file holds exactly the records its control integers announce, each as long as they say",
+                  recs is not None and len(recs) == 4 + len(tail) and [len(r) for r in recs[4:]] == tail)
     ctx.check("file identification and title record read back", dict(c.back.metadata.items()) == written)
     ctx.check("integer control parameters read back", c.back.twoD == want2)
     ok = c.back.threeD == want3
@@ -396,18 +467,32 @@ _NH_ARRAYS = ("incomingPointersToAllAssemblies", "externalCurrentPointers", "geo
 
 
 @harness("C09", bounds="NHFLUX/NAFLUX, Nodal and VARIANT layouts (4 instances): groups 1..2, axial nodes 1..2, "
-                       "assemblies 1..2, surfaces per assembly 1..2, even moments 1..2, NSCOEF 1..2, outer-boundary "
-                       "surfaces 0..1; VARIANT also: odd moments NMOMS 0..1, IWNHFL 0..1 (1 = fluxes only, no current "
-                       "records), symmetry/sector pointers 0..1: all combinations", stubs=STUBS, max_paths=5000,
-         instances={"quick": [dict(adjoint=a, variant=v) for v in (False, True) for a in (False, True)]})
-def nhflux_roundtrip_for_every_header(ctx, adjoint, variant):
-    ng, nz, na = int(ctx.int("NGROUP", 1, 2)), int(ctx.int("NINTK", 1, 2)), int(ctx.int("NINTXY", 1, 2))
-    nsurf, nmom, nsc = int(ctx.int("NSURF", 1, 2)), int(ctx.int("NMOM", 1, 2)), int(ctx.int("NSCOEF", 1, 2))
-    next_ = int(ctx.int("NEXT", 0, 1))
-    vhi = 1 if variant else 0                 # these three header words exist in the VARIANT layout only
+                       "assemblies 1..2, surfaces per assembly 1..2, even moments 1..2, NSCOEF 1..2 (both 2 in the quick "
+                       "VARIANT instances, whose dimension sweep is shared with the Nodal ones), lateral currents "
+                       "on the outer boundary 0..1 (thorough: also Nodal with counts up to 3 and both layouts with "
+                       "boundary currents 0..2 of each kind); VARIANT "
+                       "also: odd moments NMOMS 0..1, IWNHFL 0..1 (1 = fluxes only, no current records), lateral "
+                       "currents on symmetry boundaries NPCSYM 0..1 and on sector boundaries NPCSEC 0..1 (NPCXY is the "
+                       "sum of the assembly-surface, outer-boundary, symmetry and sector currents): all combinations",
+         stubs=STUBS, max_paths=20000,
+         instances={"quick": [dict(adjoint=a, variant=v, lo=(2 if v else 1), hi=2, bhi=1)
+                              for v in (False, True) for a in (False, True)],
+                    "thorough": [dict(adjoint=a, variant=v, lo=1, hi=2, bhi=1) for v in (False, True) for a in (False, True)]
+                    + [dict(adjoint=False, variant=False, lo=1, hi=3, bhi=2),
+                       dict(adjoint=True, variant=True, lo=2, hi=2, bhi=2)]})
+def nhflux_roundtrip_for_every_header(ctx, adjoint, variant, lo, hi, bhi):
+    ng, nz, na = int(ctx.int("NGROUP", 1, 2)), int(ctx.int("NINTK", 1, hi)), int(ctx.int("NINTXY", 1, hi))
+    nsurf, nmom, nsc = int(ctx.int("NSURF", 1, hi)), int(ctx.int("NMOM", lo, 2)), int(ctx.int("NSCOEF", lo, 2))
+    nbdy = int(ctx.int("NPCBDY", 0, bhi))     # (Nodal: not a header word; NPCXY minus the assembly-surface currents)
+    vhi = 1 if variant else 0                 # these header words exist in the VARIANT layout only
     nmoms = int(ctx.int("NMOMS", 0, vhi))
     iwnhfl = int(ctx.int("IWNHFL", 0, vhi))
-    nsym = int(ctx.int("NPCSYM", 0, vhi))
+    nsym = int(ctx.int("NPCSYM", 0, vhi * bhi))
+    nsec = int(ctx.int("NPCSEC", 0, vhi * bhi))
+    # lateral partial currents that belong to no assembly surface: outer boundary first, then symmetry and sector
+    # boundaries (VARIANT); the 4D records and partialCurrentsHex_extAll hold all of them, the pointer lists of the 2D
+    # record are per kind
+    next_ = nbdy + nsym + nsec
     cls = nhflux.getNhfluxReader(adjoint, variant)
     write, read = _nhflux_io(cls)
     d = nhflux.NHFLUX(variant=variant)
@@ -420,14 +505,15 @@ def nhflux_roundtrip_for_every_header(ctx, adjoint, variant):
     md["ndim"], md["ngroup"], md["ninti"], md["nintj"], md["nintk"] = 3, ng, 5, 4, nz
     md["nSurf"], md["nMom"], md["nintxy"], md["npcxy"], md["nscoef"] = nsurf, nmom, na, na * nsurf + next_, nsc
     if variant:
-        md["npcbdy"], md["npcsym"], md["npcsec"], md["iwnhfl"], md["nMoms"] = next_, nsym, 0, iwnhfl, nmoms
+        md["npcbdy"], md["npcsym"], md["npcsec"], md["iwnhfl"], md["nMoms"] = nbdy, nsym, nsec, iwnhfl, nmoms
     written = dict(md.items())
     d.incomingPointersToAllAssemblies = grid((nsurf, na), 1, int)
-    d.externalCurrentPointers = grid((next_,), 50, int)
+    d.externalCurrentPointers = grid((nbdy,), 50, int)
     d.geodstCoordMap = grid((na,), 60, int)
     names = list(_NH_ARRAYS[:4])
     if variant:
-        d.outgoingPCSymSecPointers, d.ingoingPCSymSecPointers = grid((nsym,), 70, int), grid((nsym,), 80, int)
+        d.outgoingPCSymSecPointers = grid((nsym + nsec,), 70, int)
+        d.ingoingPCSymSecPointers = grid((nsym + nsec,), 80, int)
         names += ["outgoingPCSymSecPointers", "ingoingPCSymSecPointers"]
     d.fluxMomentsAll = grid((na, nz, nmom + nmoms, ng), 0.1)
     if iwnhfl != 1:
@@ -441,7 +527,7 @@ def nhflux_roundtrip_for_every_header(ctx, adjoint, variant):
         return
     for n in names:
         ok = same_array(want[n], getattr(c.back, n), rtol=0.0)
-        if ctx.canary and n == "fluxMomentsAll" and ng == 2 and nz == 2 and nmom == 2 and nsc == 1 and nsurf == 2:
+        if ctx.canary and n == "fluxMomentsAll" and ng == 1 and nz == 1 and na == 1 and nmom == 2 and nsc == 2 and nbdy == 1:
             ok = False
         ctx.check("record data announced by the header reads back: %s" % n, ok)
     ctx.check("header reads back", header_ok(written, c.back.metadata, keys))
@@ -451,6 +537,21 @@ def nhflux_roundtrip_for_every_header(ctx, adjoint, variant):
     # axial-current record "loops through surface FIRST and assemblies SECOND" (NSCOEF values for each).  NHFLUX lists
     # the groups in order, NAFLUX in reversed order.
     recs = records_of(c.raw)
+    # file identification, 1D and 2D records; per group NINTK flux records and, unless the file holds fluxes only,
+    # NINTK lateral-current and NINTK+1 axial-current records; every lateral-current record holds NPCXY currents and
+    # every axial-current record two currents per assembly, NSCOEF doubles each
+    nrec = 3 + ng * (nz + (0 if iwnhfl == 1 else 2 * nz + 1))
+    ctx.check("the file holds exactly the records its header announces", recs is not None and len(recs) == nrec)
+    if recs is not None and len(recs) == nrec:
+        perGroup = [recs[3 + g * ((nrec - 3) // ng):3 + (g + 1) * ((nrec - 3) // ng)] for g in range(ng)]
+        ok = all(len(r) == 8 * na * (nmom + nmoms) for grp in perGroup for r in grp[:nz])
+        if iwnhfl != 1:
+            ok = ok and all(len(r) == 8 * (na * nsurf + next_) * nsc for grp in perGroup for r in grp[nz:2 * nz])
+            ok = ok and all(len(r) == 8 * 2 * na * nsc for grp in perGroup for r in grp[2 * nz:])
+        ctx.check("every flux and current record is as long as the header counts say", ok)
+        # 2D record: NSURF*NINTXY + (outer-boundary currents) + NINTXY pointers, VARIANT: + 2*(NPCSYM+NPCSEC)
+        ctx.check("the pointer record is as long as the header counts say",
+                  len(recs[2]) == 4 * (nsurf * na + nbdy + na + (2 * (nsym + nsec) if variant else 0)))
     gFirst, gLast = (ng - 1, 0) if adjoint else (0, ng - 1)
     flux = want["fluxMomentsAll"]
     expect = [flux[j, 0, i, gFirst] for j in range(na) for i in range(nmom)]
@@ -469,7 +570,7 @@ def nhflux_roundtrip_for_every_header(ctx, adjoint, variant):
         expect += [ext[j, nz - 1, gLast, m] for j in range(next_) for m in range(nsc)]
         k = -(nz + 1) - 1            # the last lateral-current record precedes the nz+1 axial-current records
         ctx.check("last lateral-current record lists the outgoing currents of every assembly surface, then the "
-                  "incoming currents of the outer boundary, as the module describes",
+                  "incoming currents of the boundaries, as the module describes",
                   recs is not None and len(recs[k]) == 8 * len(expect)
                   and list(struct.unpack("%dd" % len(expect), recs[k])) == expect)
     # the same bytes read with the class of the other flux type: everything group-dependent comes back group-reversed
